@@ -50,7 +50,7 @@ def h_roundtrip(env):
     if not env.sym:
         ref = shapes.build_ref(cat)
         r = ref["M"].FromString(bytes(data))
-        env.check("oracle:reference-reads-same-value", sm.canon_equal(cat, "M", sm.canon_of_ref(cat, "M", r), exp))
+        env.check("witness:reference-reads-same-value", sm.canon_equal(cat, "M", sm.canon_of_ref(cat, "M", r), exp))
 
 
 def units(tier):
